@@ -8,7 +8,7 @@ ORACLE_OF = {
     'C02': ['canonical-event-sequence', 'no-panic-escapes-the-attempt', 'reference-applicable'],
     'C09': ['world-threaded-through-hooks-and-steps', 'world-created-at-most-once-and-only-when-needed', 'reference-applicable'],
     'C01': ['failed-events-say-retried-iff-the-attempt-is-retried', 'reference-applicable'],
-    'C05': ['attempt-reported-failed-and-retried-correctly', 'reference-applicable'],
+    'C05': ['attempt-reported-failed-and-retried-correctly', 'no-panic-escapes-the-attempt', 'reference-applicable'],
     'C10': ['no-panic-escapes-the-attempt', 'failed-events-carry-the-payload', 'canonical-event-sequence', 'attempt-reported-failed-and-retried-correctly'],
 }
 
